@@ -464,6 +464,108 @@ def run(ck, ctx):
         ck.floor("R06.7", n_f, 8, "model formulas compared with their references")
     ck.guard(r067, "R06.7")
 
+    # ---------------------------------------------------------------- R06.9 atmosphere parameterisations
+    def r069():
+        from ..facets.poly import PolyFacet
+        from ..facets.pred import Pred
+        from .common import decision_list, disjoint_pieces
+
+        def piecewise(qual, which, zname, bands, what, extra_roles=None):
+            """The result as a function of the altitude of one element, evaluated in every cell of the partition
+            spanned by the masks of the code and the band limits of the model (cells that contradict the order of
+            the constants are dropped): in every cell the value is the model's formula of that band."""
+            from ..facets.poly import eval_formula
+            from ..ir import walk
+            cs = [c for c in I.call_log if c[0].qualname == qual]
+            if not cs:
+                raise AnalysisError(f"{qual} is not reached from the kernel")
+            fi, site, loc, ret, pc = cs[0]
+            z = I.res(loc[zname], K.st)
+            val = ret if which is None else I.elem(ret, which)
+            val = I.res(val, K.st)
+            pr = Pred(I)
+            masks = []
+            for n_ in walk([val]):
+                if n_.op == "Scatter":
+                    masks.append(n_.args[1])
+                elif is_ext_call(n_, "numpy.where") and len(n_.args) == 4:
+                    masks.append(n_.args[1])
+            atoms = []
+            for m_ in masks:
+                for k_ in pr.atoms_of(pr.formula(m_)):
+                    if k_ not in atoms:
+                        atoms.append(k_)
+            want = []
+            for lo, hi, ref in bands:
+                parts = []
+                if lo is not None:
+                    parts.append(pr.le(I.const(lo), z))
+                if hi is not None:
+                    parts.append(pr.lt(z, I.const(hi)))
+                f = ("and",) + tuple(parts) if len(parts) > 1 else parts[0]
+                for k_ in pr.atoms_of(f):
+                    if k_ not in atoms:
+                        atoms.append(k_)
+                want.append(f)
+            foreign = [k_ for k_ in atoms if k_[0] != "lt" or z.id not in
+                       {x.id for x in pr.atoms[k_][1:] if x is not None}]
+            envs = pr._assignments(atoms)
+            if envs is None or foreign:
+                ck.ob("R06.9", f"{what}: the bands are selected by comparisons of the altitude with constants",
+                      None if envs is None else False, val, qual,
+                      "; ".join(pr.show_atom(k_)[:80] for k_ in foreign) or f"{len(atoms)} mask atoms")
+                return
+            roles = {"z": z}
+            for k_, src in (extra_roles or {}).items():
+                roles[k_] = src(loc)
+            keys = {g.vn(n_) for n_ in roles.values()}
+            per_band = {i: [] for i in range(len(bands))}
+            for env in envs:
+                ins = [i for i, f in enumerate(want) if eval_formula(f, env) is True]
+                if len(ins) != 1:
+                    raise AnalysisError(f"{what}: the model's bands do not partition the altitudes")
+                per_band[ins[0]].append(env)
+            for i, (lo, hi, ref) in enumerate(bands):
+                label = f"{'' if lo is None else str(lo) + ' <= '}z{'' if hi is None else ' < ' + str(hi)}"
+                ok, detail, at = True, "", val
+                for env in per_band[i]:
+                    P = PolyFacet(I, opaque_ids={n_.id for n_ in roles.values()}, gather_transparent=True)
+                    P.opaque = (lambda n_, _k=keys, _o=P.opaque: _o(n_) or g.vn(n_) in _k)
+                    P.cell = (pr, env)
+                    try:
+                        got = P.of(val)
+                        same = P.equal(_bare(got), P.ref(ref, {k_: P.of(n_) for k_, n_ in roles.items()}))
+                    except Exception as ex:       # noqa: BLE001
+                        ok, detail = None, f"{type(ex).__name__}: {ex}"
+                        break
+                    if not same:
+                        ok = False
+                        detail = f"where {pr.show_env(env)[:160]}: {P.show(got)[:200]}"
+                        break
+                ck.ob("R06.9", f"{what}, {label}: == {ref}", ok if per_band[i] else None, at, qual,
+                      detail or f"{len(per_band[i])} cell(s)", construct=f"{qual}: {what} in the band {label}")
+        X1 = "((z - 44.34)/-11.861)**(1/0.19)"
+        X2 = "exp((z - 45.5)/-6.34)"
+        X3 = "exp(13.841 - sqrt(28.920 + 3.344*z))"
+        piecewise("CphotAng.grammage", 0, "z", [(None, 11, X1), (11, 25, X2), (25, None, X3)],
+                  "vertical grammage X(z) (g cm^-2)")
+        piecewise("CphotAng.grammage", 1, "z",
+                  [(None, 11, "-0.00001*(1/0.19)/(-11.861)*((z - 44.34)/-11.861)**(1/0.19 - 1)"),
+                   (11, 25, "-0.00001/(-6.34)*" + X2),
+                   (25, None, "0.000005*3.344/sqrt(28.920 + 3.344*z)*" + X3)],
+                  "air density rho(z) = -1e-5 dX/dz (g cm^-3)")
+
+        if True:
+            piecewise("CphotAng.ozone_losses", None, "z",
+                      [(None, 5.35, "310 + ((5.35 - z)/5.35)*15"), (100, None, "0.1"),
+                       (5.35, 100, "S + ((Z - z)/(Z - Zm))*D")],
+                      "total ozone above z (Dobson units)",
+                      extra_roles={"S": lambda l: _table_at(I, K, "OzDsum", l["idxs"], 0),
+                                   "Z": lambda l: _table_at(I, K, "OzZeta", l["idxs"], 0),
+                                   "Zm": lambda l: _table_at(I, K, "OzZeta", l["idxs"], -1),
+                                   "D": lambda l: _table_at(I, K, "OzDepth", l["idxs"], 0)})
+    ck.guard(r069, "R06.9")
+
     # ---------------------------------------------------------------- R06.6 early exits
     def r066():
         def zero(x):
@@ -489,7 +591,8 @@ def run(ck, ctx):
 
 MODEL_METHODS = ("CphotAng.valid_arrays", "CphotAng.tracklen", "CphotAng.e0", "CphotAng.cherenkov_threshold_angle",
                  "CphotAng.sphoton_yeild", "CphotAng.d_to_det", "CphotAng.cherenkov_area", "CphotAng.theta_view",
-                 "CphotAng.theta_prop", "CphotAng.photon_sum", "CphotAng.aerosol_model")
+                 "CphotAng.theta_prop", "CphotAng.photon_sum", "CphotAng.aerosol_model", "CphotAng.grammage",
+                 "CphotAng.ozone_losses")
 
 # Reference formulas of the shower model named by the property (sources: K. Greisen, Prog. Cosmic Ray Phys. 3
 # (1956) - longitudinal profile N(t) = 0.31 / sqrt(y) exp[t (1 - 1.5 ln s)], s = 3 t / (t + 2 y), y = ln(E / Ec),
@@ -551,3 +654,12 @@ def _ref_with_pi(P, expr, env):
 def _bare(v):
     """the value without its zeroing conditions (negative parts floored at 0 and the like)"""
     return type(v)(v.rat)
+
+
+def _table_at(I, K, table, idx, off):
+    """node self.<table>[idx + off] as the kernel spells it"""
+    t = I.res(I.load_attr(K.obj, table, K.st, None, None), K.st)
+    i = I.res(idx, K.st)
+    if off:
+        i = I.mk("BinOp", (i, I.const(abs(off))), "Sub" if off < 0 else "Add")
+    return I.mk("Subscript", (t, i))
